@@ -86,7 +86,8 @@ Definition obj := list (String.string * option oval).   (* attribute -> value; N
 Inductive dset :=
   | DArr (t : dtype) (sh : list Z) (d : list Z)
   | DStrs (l : list str)                          (* 1-D variable-length string dataset, UTF-8 bytes *)
-  | DStr (b : str).                               (* scalar string dataset *)
+  | DStr (b : str)                                (* scalar string dataset, UTF-8 character set (written from a python str) *)
+  | DBytes (b : str).                             (* scalar string dataset, ASCII character set (written from python bytes) *)
 
 Definition sval_eqb (a b : sval) : bool :=
   match a, b with
@@ -100,7 +101,7 @@ Definition dset_eqb (a b : dset) : bool :=
   match a, b with
   | DArr t sh d, DArr t' sh' d' => dtype_eqb t t' && zl_eqb sh sh' && zl_eqb d d'
   | DStrs l, DStrs l' => zll_eqb l l'
-  | DStr s, DStr s' => zl_eqb s s'
+  | DStr s, DStr s' | DBytes s, DBytes s' => zl_eqb s s'
   | _, _ => false
   end.
 (** dictionaries are compared as finite maps (same keys, same values; no key twice) *)
@@ -132,7 +133,7 @@ Definition encode (v : sval) : option dset :=
   | VInt z => if in_i64 z then Some (DArr TI64 [] [z]) else None
   | VFloat b => Some (DArr TF64 [] [b])
   | VStr s => option_map DStr (utf8_enc s)
-  | VBytes b => Some (DStr b)
+  | VBytes b => Some (DBytes b)
   end.
 
 (** ** paths *)
@@ -176,19 +177,25 @@ Definition create (p : path) (d : dset) (f : file) : file + err :=
   else inl ((p, NData d) :: fold_right (fun q acc => if mem q f then acc else (q, NGroup) :: acc) [] (prefixes p) ++ f).
 
 (** ** h5py_File_write_dict
-    [fx = true] is the code as it stands (a [None] field deletes an existing dataset when overwriting);
-    [fx = false] is the behaviour before commit 5ae6bde7 (a [None] field is skipped), kept for the refutation only.
+    [VCur] is the code as it stands: when overwriting, a [None] field deletes an existing dataset and a dictionary item
+    deletes the existing group (or dataset) of its name before its members are written;
+    [VOld1] is the behaviour before commit 6c7554cf (a dictionary item is written into whatever is there);
+    [VOld0] is the behaviour before commit 5ae6bde7 (in addition, a [None] field is skipped).
+    The former versions are kept for the refutations (regression witnesses) only.
     The nested call for a dictionary item does not pass [overwrite] on: it runs with the default, [True]. *)
+Inductive ver := VOld0 | VOld1 | VCur.
+Definition clears_none (v : ver) : bool := match v with VOld0 => false | _ => true end.
+Definition clears_dict (v : ver) : bool := match v with VCur => true | _ => false end.
 Inductive item := INone | IData (d : dset) | IDict (l : list (str * option (option dset))) | IBad.
 (* inner option: None = python None;  Some None = a value h5py cannot store *)
 
-Fixpoint write_flat (fx : bool) (f : file) (g : str) (l : list (str * option (option dset))) (ow : bool) : file * option err :=
+Fixpoint write_flat (fx : ver) (f : file) (g : str) (l : list (str * option (option dset))) (ow : bool) : file * option err :=
   match l with
   | [] => (f, None)
   | (k, v) :: t =>
     let p := split_path (g ++ k) in
     match v with
-    | None => write_flat fx (if fx && ow && mem p f then del p f else f) g t ow
+    | None => write_flat fx (if clears_none fx && ow && mem p f then del p f else f) g t ow
     | Some None => (f, Some EType)
     | Some (Some d) =>
       let f1 := if mem p f && ow then del p f else f in
@@ -199,14 +206,14 @@ Fixpoint write_flat (fx : bool) (f : file) (g : str) (l : list (str * option (op
     end
   end.
 
-Fixpoint write_dict (fx : bool) (f : file) (g : str) (l : list (str * item)) (ow : bool) : file * option err :=
+Fixpoint write_dict (fx : ver) (f : file) (g : str) (l : list (str * item)) (ow : bool) : file * option err :=
   match l with
   | [] => (f, None)
   | (k, it) :: t =>
     let fld := g ++ k in
     let p := split_path fld in
     match it with
-    | INone => write_dict fx (if fx && ow && mem p f then del p f else f) g t ow
+    | INone => write_dict fx (if clears_none fx && ow && mem p f then del p f else f) g t ow
     | IData d =>
       let f1 := if mem p f && ow then del p f else f in
       match create p d f1 with
@@ -214,7 +221,8 @@ Fixpoint write_dict (fx : bool) (f : file) (g : str) (l : list (str * item)) (ow
       | inr e => (f1, Some e)
       end
     | IDict sub =>
-      match write_flat fx f (fld ++ [47]) sub true with
+      let f0 := if clears_dict fx && ow && mem p f then del p f else f in
+      match write_flat fx f0 (fld ++ [47]) sub true with
       | (f1, None) => write_dict fx f1 g t ow
       | (f1, Some e) => (f1, Some e)
       end
@@ -225,7 +233,7 @@ Fixpoint write_dict (fx : bool) (f : file) (g : str) (l : list (str * item)) (ow
 (** ** typed readers *)
 Definition wrap8 (z : Z) : Z := (z + 128) mod 256 - 128.
 Definition raw (d : dset) : sval :=
-  match d with DArr t sh x => VArr t sh x | DStrs l => VBytess l | DStr b => VBytes b end.
+  match d with DArr t sh x => VArr t sh x | DStrs l => VBytess l | DStr b => VBytes b | DBytes b => VBytes b end.
 Definition read_d (r : reader) (d : dset) : sval + err :=
   match r, d with
   | RNd, _ => inl (raw d)
@@ -233,7 +241,7 @@ Definition read_d (r : reader) (d : dset) : sval + err :=
   | RInt, DArr t _ [z] => if dtype_eqb t TF64 then inr EOther else inl (VInt z)
   | RNdInt8, DArr t sh x => if dtype_eqb t TF64 then inr EOther else inl (VArr TI8 sh (if dtype_eqb t TI8 then x else map wrap8 x))
   | RNdInt, DArr t sh x => if dtype_eqb t TF64 then inr EOther else inl (VArr TI64 sh x)
-  | RUtf8, DStr b => match utf8_dec b with Some s => inl (VStr s) | None => inr EValue end
+  | RUtf8, DStr b | RUtf8, DBytes b => match utf8_dec b with Some s => inl (VStr s) | None => inr EValue end
   | _, _ => inr EOther
   end.
 Definition read (r : reader) (f : file) (fld : str) : sval + err :=
@@ -242,18 +250,29 @@ Definition read (r : reader) (f : file) (fld : str) : sval + err :=
   | Some NGroup => inr EType
   | Some (NData d) => read_d r d
   end.
-(** h5py_File_read_dict: every member of the group, raw (strings stay bytes) *)
-Definition read_dict (f : file) (fld : str) : list (str * option sval) + err :=
+(** h5py_File_read_dict: every member of the group.  [dec = true] is the code as it stands: a scalar UTF-8 string (what a
+    python str is stored as) is decoded, everything else is raw (bytes stay bytes, string arrays stay arrays of bytes);
+    [dec = false] is the behaviour before commit 06cf6bbd (nothing is decoded), kept for the refutation only. *)
+Definition raw_member (dec : bool) (d : dset) : option sval :=
+  match d with
+  | DStr b => if dec then option_map VStr (utf8_dec b) else Some (VBytes b)
+  | _ => Some (raw d)
+  end.
+Definition kids (p : path) (f : file) : file := filter (fun e => is_prefix p (fst e) && Nat.eqb (length (fst e)) (S (length p))) f.
+Definition member (dec : bool) (e : path * node) : option (str * option sval) :=
+  match snd e with NData d => option_map (fun v => (last (fst e) [], Some v)) (raw_member dec d) | NGroup => None end.
+Definition read_dict_gen (dec : bool) (f : file) (fld : str) : list (str * option sval) + err :=
   let p := split_path fld in
   match lookup p f with
   | Some NGroup =>
-    let kids := filter (fun e => is_prefix p (fst e) && Nat.eqb (length (fst e)) (S (length p))) f in
-    if forallb (fun e => match snd e with NData _ => true | NGroup => false end) kids
-    then inl (map (fun e => (last (fst e) [], match snd e with NData d => Some (raw d) | NGroup => None end)) kids)
+    let ks := kids p f in
+    if forallb (fun e => match snd e with NData _ => true | NGroup => false end) ks
+    then match opt_all (map (member dec) ks) with Some l => inl l | None => inr EValue end     (* UnicodeDecodeError *)
     else inr EType
   | Some (NData _) => inr EType
   | None => inr EOther
   end.
+Definition read_dict := read_dict_gen true.
 
 (** ** to_hdf5 / from_hdf5 of a class described by its table *)
 Definition slash_end (g : str) : str := if last g 0 =? 47 then g else g ++ [47].
@@ -269,13 +288,13 @@ Definition to_item (v : option oval) : item :=
   end.
 Definition data_dict (s : cls_spec) (o : obj) : list (str * item) :=
   map (fun ka => (zs (fst ka), to_item (attr (snd ka) o))) (written s).
-Definition to_hdf5 (fx : bool) (s : cls_spec) (f : file) (g : option str) (o : obj) (ow : bool) : file * option err :=
+Definition to_hdf5 (fx : ver) (s : cls_spec) (f : file) (g : option str) (o : obj) (ow : bool) : file * option err :=
   match norm_group g with
   | inr e => (f, Some e)
   | inl gn => write_dict fx f gn (data_dict s o) ow
   end.
 
-Fixpoint read_fields (f : file) (gn : str) (l : list rfield) : list (String.string * option oval) + err :=
+Fixpoint read_fields (dec : bool) (f : file) (gn : str) (l : list rfield) : list (String.string * option oval) + err :=
   match l with
   | [] => inl []
   | r :: t =>
@@ -283,12 +302,12 @@ Fixpoint read_fields (f : file) (gn : str) (l : list rfield) : list (String.stri
     let v : option oval + err :=
       if ropt r && negb (mem (split_path fld) f) then inl None
       else match rrd r with
-           | RDict => match read_dict f fld with inl d => inl (Some (OD d)) | inr e => inr e end
+           | RDict => match read_dict_gen dec f fld with inl d => inl (Some (OD d)) | inr e => inr e end
            | rd => match read rd f fld with inl x => inl (Some (OS x)) | inr e => inr e end
            end in
     match v with
     | inr e => inr e
-    | inl x => match read_fields f gn t with inl rest => inl ((rslot r, x) :: rest) | inr e => inr e end
+    | inl x => match read_fields dec f gn t with inl rest => inl ((rslot r, x) :: rest) | inr e => inr e end
     end
   end.
 
@@ -319,17 +338,21 @@ Definition construct (s : cls_spec) (ntrait : Z) (data : list (String.string * o
   else inl data.
 
 (** order the attributes as the harness observes them: constructor fields, then metadata *)
-Definition from_hdf5 (s : cls_spec) (ntrait : Z) (f : file) (g : option str) : obj + err :=
+Definition from_hdf5_gen (dec : bool) (s : cls_spec) (ntrait : Z) (f : file) (g : option str) : obj + err :=
   match norm_group g with
   | inr e => inr e
   | inl gn =>
     if (match g with Some s0 => negb (mem (split_path s0) f) | None => false end) then inr EOther   (* check_h5py_File_has_group *)
     else if negb (forallb (fun k => mem (split_path (gn ++ zs k)) f) (required s)) then inr EOther
-    else match read_fields f gn (reads s) with
+    else match read_fields dec f gn (reads s) with
          | inr e => inr e
          | inl data => construct s ntrait data
          end
   end.
+
+(** the code as it stands, and the reader before commit 06cf6bbd *)
+Definition from_hdf5 := from_hdf5_gen true.
+Definition old_from_hdf5 := from_hdf5_gen false.
 
 (** ** a history of writes to one location, a read after every write *)
 Definition step_out := (bool * option (list (str * option dset)) * option obj)%type.
@@ -349,7 +372,7 @@ Definition obj_sim (a b : obj) : bool :=
 Definition read_ok (m : obj + err) (e : option obj) : bool :=
   match m, e with inl a, Some b => obj_sim a b | inr _, None => true | _, _ => false end.
 
-Fixpoint agree_h5 (fx : bool) (s : cls_spec) (ntrait : Z) (g : option str) (f : file)
+Fixpoint agree_h5 (fx : ver) (s : cls_spec) (ntrait : Z) (g : option str) (f : file)
                   (steps : list (obj * bool)) (outs : list step_out) : bool :=
   match steps, outs with
   | [], [] => true
@@ -363,7 +386,7 @@ Fixpoint agree_h5 (fx : bool) (s : cls_spec) (ntrait : Z) (g : option str) (f : 
   end.
 
 (** h5py_File_write_dict called directly: a history of dictionaries written below one group name *)
-Fixpoint agree_wd (fx : bool) (g : str) (f : file) (steps : list (list (str * item) * bool))
+Fixpoint agree_wd (fx : ver) (g : str) (f : file) (steps : list (list (str * item) * bool))
                   (outs : list (bool * option (list (str * option dset)))) : bool :=
   match steps, outs with
   | [], [] => true
